@@ -435,8 +435,17 @@ def perfect_square_root(x):
         return None
     rn, rd = math.isqrt(coeff.numerator), math.isqrt(coeff.denominator)
     if rn * rn != coeff.numerator or rd * rd != coeff.denominator:
-        return None
-    r = z3.RealVal(str(Fraction(rn, rd)))
+        if not counts:
+            return None
+        # irrational constant factor: one algebraic constant rt > 0 with rt*rt = coeff (shared per context), times the monomial
+        roots = ctx().__dict__.setdefault('root_consts', {})
+        r = roots.get(coeff)
+        if r is None:
+            r = ctx().fresh('rt')
+            ctx().add_def(r, [r > 0, r * r == z3.RealVal(str(coeff))])
+            roots[coeff] = r
+    else:
+        r = z3.RealVal(str(Fraction(rn, rd)))
     for n, c in counts.items():
         for _ in range(c // 2):
             r = r * f_abs(terms[n])
